@@ -23,7 +23,7 @@ TEXT = {
  'C15': ("unit obligations on RandomIndex, GetNextSuperNodes and RandomSP over an enumerated symbolic node population, ignore list, count and seed", "seed < 10^3, total <= 4, count <= 2, <= 2-3 nodes; floats as reals"),
  'C16': ("triples on AppendOrder / AppendShard / NewOrder (fresh ids, counters) and UpdateMeta (append exactly one history entry; force-push replaces only the latest)", "the base-version check of MsgStore is exercised by the C09 store obligation only"),
  'C19': ("frame + validity obligation on MsgReportFaults: any recorded report implies a registered fishman reporter and an existing unexpired shard of the accused provider; nothing but fault records written, no transfer", "RecoverFaults / DoPenalty penalty caps are not yet built"),
- 'C20': ("two-run obligation on the delegation hook (shared with C03)", "promotion predicate obligations (T-promote, I-N1) are not yet built"),
+ 'C20': ("role obligations on the delegation hook: after AfterDelegationModified (clean process memory) the delegating node is super only if status mask, capacity threshold and share ratio hold, and an unqualified super node is demoted; plus the two-run obligation shared with C03", "validator-level hooks, Reset / Add- / RemoveVstorage promotion paths and second delegators are not built; the staking module is a declared-facts model"),
 }
 checks = []
 for p in sorted(TEXT):
